@@ -141,10 +141,28 @@ theorem retry_after_delay (cfg : Cfg) (h : List Input) (hc : (run cfg h).1.comm 
 
 /-- "after the *configured* establish-communications delay": durations are not part of the model; what is generated from the
 source is that the configured values reach the timers unaltered — the settings take them with a plain `kwargs.get(name, default)`
-(0 is a value, the default is 10 s) and the timer handlers read the setting when the state is entered -/
+(0 is a value, the default is 10 s), the property's setter stores what it is given (0.8 s stays 0.8 s) and the getter returns it,
+and the timer handlers read the setting when the state is entered -/
 theorem configured_durations_taken :
     Gen.Callbacks.establishDelayPlainGet = true ∧ Gen.Callbacks.establishDelayDefault = 10 ∧
-    Gen.Callbacks.timeoutsPlainGet = true ∧ Gen.Callbacks.timersReadSettings = true := by decide
+    Gen.Callbacks.timeoutsPlainGet = true ∧ Gen.Callbacks.timersReadSettings = true ∧
+    Gen.Callbacks.establishDelayGetterPlain = true ∧ Gen.Callbacks.establishDelaySetterPlain = true ∧
+    Gen.Callbacks.timeoutsAccessPlain = true := by decide
+
+/-- the input `enable` of the model is `_communication_state.enable()` *followed by* `protocol.enable()`: a transport that brings
+the link up from inside `protocol.enable()` delivers `linkSelected` to an enabled machine (the harness letter `en+sel`); `disable`
+is the protocol first, then the machine.  Generated from the statement order of `GemHandler.enable` / `disable`. -/
+theorem enable_order : Gen.Callbacks.enableStateMachineFirst = true ∧ Gen.Callbacks.disableProtocolFirst = true := by decide
+
+/-- … so that such an `enable()` starts the attempt: from DISABLED, `enable` then `linkSelected` ends in WAIT_CRA with the S1F13
+written and the reply timer pending (any variant, any role) -/
+theorem attempt_starts_on_enable (cfg : Cfg) (s : State) (hd : s.comm = .disabled) (hs : s.selected = false) :
+    let r1 := step cfg s .enable
+    let r2 := step cfg r1.1 .linkSelected
+    r2.1.comm = .waitCra ∧ r2.1.t3Armed = true ∧ Output.txS1F13 s.nextSys ∈ r2.2 := by
+  obtain ⟨c, cn, l, a, b, n, m, q⟩ := s
+  simp only at hd hs; subst hd; subst hs
+  simp [step, perform_eq, allowed, leaveEffects_eq, enterEffects_eq, sendS1F13, hooked_comm, selects]
 
 /-- non-vacuity: WAIT_CRA and WAIT_DELAY are reachable with the link up -/
 example : (run {} [.enable, .linkSelected]).1.comm = .waitCra ∧ (run {} [.enable, .linkSelected]).1.selected = true := by decide +kernel
